@@ -63,221 +63,71 @@ def run(model: Model, rep: Report, tier: str) -> None:
         "decide idempotence of the pipeline, equality with the latent projection, or invariance of separation/identifiability."
     )
     rep.trusted_base = ["networkx DiGraph add/remove, successors/predecessors, out_degree, topological_sort", "itertools.combinations/product"]
-    rep.floors = {"R16.1": 2, "R16.2": 2, "R16.3": 4, "R16.4": 6, "R16.5": 2}
-    sa = SetAlg(rewrite=rewriter(graph_rewrite))
+    rep.floors = {"R16.1": 2, "R16.2": 2, "R16.3": 3, "R16.4": 9, "R16.5": 2}
+    from .. import nxden
+    from ..refcmp import compare_with_reference, load_reference, private_callees, run_table
+    from .common import nx_rewrite
+
+    load_reference(model, "yvref.c16", "c16_ref.py")
+    sa = SetAlg(rewrite=rewriter(graph_rewrite, nx_rewrite))
     x = var("%x")
-    # ------------------------------------------------------------------ R16.1a  ADMG -> LV-DAG
-    f = model.func(f"{NXMG}.to_latent_variable_dag")
-    ev = Evaluator(model, prim_methods=set(BUILDERS))
-    G = graph_var(ev, "self")
-    rets = return_paths(ev.run(f, {}, self_term=G))
-    cons = construct(f, "node-set")
-    if len(rets) != 1:
-        rep.unknown("R16.1", cons, f"{len(rets)} return paths", loc(f))
-    else:
-        base, effs = _effects(rets[0].value)
-        node_sources = [sa.strip(e[2][0]) for e, g in effs if e[0] == "call" and e[1] == "add_nodes_from" and e[2] and not g]
-        edge_sources = [sa.strip(e[2][0]) for e, g in effs if e[0] == "call" and e[1] == "add_edges_from" and e[2] and not g]
-        if ("V", G) in node_sources:
-            rep.proven("R16.1", cons, loc=loc(f), sample={"nodes added from": [short(show(n), 80) for n in node_sources]})
-        else:
-            rep.refuted("R16.1", cons, "the latent-variable DAG is built from the two edge lists only: a node without any edge is lost, so the conversion "
-                        "does not round-trip a graph with an isolated node (nodes come from: " + ", ".join(short(show(n), 60) for n in node_sources) + ")", loc(f))
-        # R16.2 forward roles: directed edges copied, one latent per bidirected edge with edges to both ends
-        problems = []
-        if ("Ed", G) not in edge_sources:
-            problems.append("directed edges are not copied")
-        lat_targets = set()
-        lat_terms = set()
-        for e, g in effs:
-            if e[0] == "call" and e[1] == "add_edge" and g:
-                src = g[-1][1]
-                core = src
-                while core[0] == "call" and core[2]:
-                    core = core[2][0]
-                if sa.strip(core) == ("Eu", G) or sa.strip(core)[0] == "Eu":
-                    pat = g[-1][0]
-                    uv = [s for s in subterms(pat) if s[0] == "var"]
-                    lat_terms.add(e[2][0])
-                    lat_targets.add(e[2][1])
-                    if any(c for c in g[-1][2] if not _benign_name_guard(c)):
-                        problems.append("some bidirected edges get no latent node")
-        if len(lat_targets) != 2 or len(lat_terms) != 1:
-            problems.append("each bidirected edge must get exactly one latent node with edges to both endpoints")
-        tagged = [e for e, g in effs if e[0] == "call" and e[1] == "add_node" and g and any(k == "hidden" or True for k, _ in e[3])]
-        (rep.refuted if problems else rep.proven)("R16.2", construct(f, "roles"), "; ".join(sorted(set(problems))), loc(f))
-    # ------------------------------------------------------------------ R16.1b  LV-DAG -> ADMG
-    f = model.func(f"{NXMG}.from_latent_variable_dag")
-    ev = Evaluator(model, prim_methods=set(BUILDERS))
-    D = typed(ev, "graph", "nx.DiGraph")
-    rets = return_paths(ev.run(f, {"graph": D, "tag": const("hidden")}, self_term=("ref", NXMG)))
-    cons = construct(f, "node-set")
-    if len(rets) != 1:
-        rep.unknown("R16.1", cons, f"{len(rets)} return paths", loc(f))
-    else:
-        base, effs = _effects(rets[0].value)
-        if not (base[0] == "rec" and base[1] == NXMG):
-            rep.unknown("R16.1", cons, "result is not a fresh mixed graph: " + short(show(base), 100), loc(f))
-        else:
-            adds = [(e, g) for e, g in effs if e[0] == "call" and e[1] == "add_node"]
-            ok = False
-            detail = "no add_node for non-latent nodes: an observed node without children and without an observed parent is lost"
-            lat_cond = None
-            for e, g in adds:
-                (pat, it, conds) = g[0]
-                node = pat[1][0] if pat[0] == "tuplelit" else pat
-                data = pat[1][1] if pat[0] == "tuplelit" else None
-                n = dict(e[3]).get("n", e[2][0] if e[2] else None)
-                if n != node or len(g) != 1:
-                    continue
-                fm = f_and(*[sa.cond(c) for c in conds])
-                tagged = sa.cond(("truth", ("index", data, const("hidden")))) if data is not None else None
-                if tagged is None:
-                    continue
-                eq, row, _ = compare(fm, f_not(tagged))
-                if eq:
-                    ok = True
-                else:
-                    extra = [a for a in atoms_of(fm) if a not in atoms_of(tagged)]
-                    detail = ("a non-latent node is added only under an extra condition (" + ", ".join(short(show(a), 80) for a in extra)
-                              + "): observed nodes failing it vanish in the round trip (e.g. an isolated node, or a sink whose parents are removed latents)")
-            (rep.proven if ok else rep.refuted)("R16.1", cons, "" if ok else detail, loc(f))
-            # R16.2 backward roles
-            problems = []
-            und = [(e, g) for e, g in effs if e[0] == "call" and e[1] == "add_undirected_edge"]
-            dr = [(e, g) for e, g in effs if e[0] == "call" and e[1] == "add_directed_edge"]
-            if not und or not dr:
-                problems.append("latent nodes must give bidirected edges and observed nodes directed edges")
-            for e, g in und:
-                inner = g[-1]
-                if not (inner[1][0] == "call" and inner[1][1].endswith("combinations") and inner[1][2][1] == const(2) and inner[1][2][0][0] == "meth" and inner[1][2][0][2] == "successors"):
-                    problems.append("bidirected edges are not all pairs of a latent's children")
-                if not any(c == ("truth", ("index", g[0][0][1][1], const("hidden"))) or c == ("index", g[0][0][1][1], const("hidden")) for c in g[0][2]):
-                    problems.append("bidirected edges are created for non-latent nodes")
-            for e, g in dr:
-                inner = g[-1]
-                node = g[0][0][1][0]
-                kw = dict(e[3])
-                if not (inner[1][0] == "meth" and inner[1][2] == "successors" and kw.get("u") == node and kw.get("v") == inner[0]):
-                    problems.append("directed edges are not (node, child) for each child")
-            (rep.refuted if problems else rep.proven)("R16.2", construct(f, "roles"), "; ".join(sorted(set(problems))), loc(f))
-    # ------------------------------------------------------------------ R16.3 / R16.4 rules
-    lat = ("call", f"{SL}.iter_latents", (), (("graph", None), ("tag", const("hidden"))))
+    G = ("cls", NXMG)
+    D = "nx.DiGraph"
+    OPT = ("union", ("str", "none"))
+    PUB = {f"{SL}.{n}" for n in ("iter_latents", "iter_middle_latents", "iter_unidirectional_latents", "iter_widow_latents", "remove_redundant_latents",
+                                 "remove_unidirectional_latents", "remove_widow_latents", "simplify_latent_dag", "transform_latents_with_parents", "evans_simplify")}
 
-    def gen_of(fn_name):
-        f = model.func(f"{SL}.{fn_name}")
-        ev = Evaluator(model, primitives={f"{SL}.iter_latents"})
-        D = typed(ev, "graph", "nx.DiGraph")
-        rets = return_paths(ev.run(f, {"graph": D, "tag": const("hidden")}))
-        return f, ev, D, rets
+    def mk(model_, prims):
+        return lambda: Evaluator(model_, primitives=set(prims), prim_methods=set(BUILDERS))
 
-    def latent_source(it, D):
-        return it[0] == "call" and it[1] == f"{SL}.iter_latents" and kwargs_of(it).get("graph") == D
-
-    guards = {
-        "iter_widow_latents": ("widow", lambda D, n: f_not(sa.cond(("truth", ("meth", D, "successors", (n,), ())))), "a latent with no children"),
-        "iter_unidirectional_latents": ("unidirectional", lambda D, n: ("atom", ("eq", sa.canon(const(1)), sa.canon(("meth", D, "out_degree", (n,), ())))), "a latent with exactly one child"),
-    }
-    for fn, (role, want_f, words) in guards.items():
-        f, ev, D, rets = gen_of(fn)
-        cons = construct(f, f"guard:{role}")
-        if len(rets) != 1:
-            rep.unknown("R16.4", cons, f"{len(rets)} paths", loc(f))
-            continue
-        t = rets[0].value
-        while t[0] == "call" and t[1] == "iter":
-            t = t[2][0]
-        if not (t[0] == "accum" and t[2] == ("listlit", ()) and len(t[4]) == 1 and t[3] == ("listlit", (t[4][0][0],))):
-            rep.unknown("R16.4", cons, "generator is not a filter of iter_latents: " + short(show(t), 160), loc(f))
-            continue
-        pat, it, conds = t[4][0]
-        problems = []
-        if not latent_source(it, D):
-            problems.append("candidates are not drawn from iter_latents(graph) (an observed node could be removed)")
-        got = f_and(*[sa.cond(_norm_degree(_norm_len(c), D)) for c in conds])
-        want = want_f(D, pat) if role != "widow" else f_not(sa.cond(("truth", ("OUT", D, pat))))
-        if role == "unidirectional":
-            want = sa.eq_atom(const(1), ("OUTDEG", D, pat))
-            got = f_and(*[sa.cond(_norm_degree(_norm_len(c), D)) for c in conds])
-        eq, row, _ = compare(got, want)
-        if not eq:
-            problems.append(f"the rule must select {words}; its guard is {short(show_formula(got), 160)}")
-        (rep.refuted if problems else rep.proven)("R16.4", cons, "; ".join(problems), loc(f), sample={"guard": show_formula(got)})
-        rep.proven("R16.3", construct(f, "latents-only"), loc=loc(f)) if latent_source(it, D) else rep.refuted("R16.3", construct(f, "latents-only"), "not drawn from iter_latents", loc(f))
-    # middle latents
-    f, ev, D, rets = gen_of("iter_middle_latents")
-    cons = construct(f, "guard:middle")
-    if len(rets) == 1:
-        t = rets[0].value
-        while t[0] == "call" and t[1] == "iter":
-            t = t[2][0]
-        ok_shape = t[0] == "accum" and t[2] == ("listlit", ()) and len(t[4]) == 1
-        if not ok_shape:
-            rep.unknown("R16.4", cons, "generator shape not understood: " + short(show(t), 160), loc(f))
+    T = {"graph": D, "tag": OPT}
+    table = [
+        ("R16.1", f"{NXMG}.to_latent_variable_dag", "lv_dag_of", {"self": G, "prefix": OPT, "tag": OPT}, (), "node-set",
+         "ADMG -> LV-DAG: every node of the graph (also one without edges), every directed edge, and one tagged latent parent of both endpoints per bidirected edge",
+         {"impl_self_type": G}),
+        ("R16.1", f"{NXMG}.from_latent_variable_dag", "admg_of", T, (), "node-set",
+         "LV-DAG -> ADMG: every untagged node is kept unconditionally, with a directed edge to each child; every two children of a tagged node get a bidirected edge",
+         {"impl_self_term": ("ref", NXMG)}),
+        ("R16.4", f"{SL}.iter_latents", "latents", T, (), "latents", "the nodes whose tag is set, in topological order"),
+        ("R16.4", f"{SL}.iter_widow_latents", "widows", T, PUB, "guard:widow", "a latent with no children"),
+        ("R16.4", f"{SL}.iter_unidirectional_latents", "unidirectional", T, PUB, "guard:unidirectional", "a latent with exactly one child"),
+        ("R16.4", f"{SL}.iter_middle_latents", "middle", T, PUB, "guard:middle",
+         "a latent with at least one parent and at least one child (whatever its parents are), yielded with its parents and its children"),
+        ("R16.4", f"{SL}.remove_widow_latents", "without_widows", T, PUB, "removes:widows", "exactly the widow latents are removed (in place) and reported"),
+        ("R16.4", f"{SL}.remove_unidirectional_latents", "without_unidirectional", T, PUB, "removes:unidirectional", "exactly the single-child latents are removed (in place) and reported"),
+        ("R16.4", f"{SL}.transform_latents_with_parents", "exogenised", dict(T, suffix=OPT), PUB, "middle-transformation",
+         "each latent with parents is removed; its parents point to its children; a new tagged exogenous latent points to exactly its children"),
+        ("R16.4", f"{SL}.simplify_latent_dag", "simplified", T, PUB, "rule-order",
+         "exogenise, drop widows, drop single-child latents, drop redundant latents -- in this order, each on the result of the previous rule"),
+    ]
+    run_table(model, rep, table, "yvref.c16", mk, sa, construct=construct, loc=loc, post=nxden.post)
+    # R16.2 (edge roles) is decided by the same two comparisons as R16.1: restated so that the rule keeps its instances
+    for q, role in ((f"{NXMG}.to_latent_variable_dag", "node-set"), (f"{NXMG}.from_latent_variable_dag", "node-set")):
+        fq = model.func(q)
+        ob = next((o for o in rep.obligations if o.rule == "R16.1" and o.construct == construct(fq, role)), None)
+        cons2 = construct(fq, "roles")
+        if ob is None or ob.verdict == "UNKNOWN":
+            rep.unknown("R16.2", cons2, "decided together with R16.1 (not decided)", loc(fq))
+        elif ob.verdict == "PROVEN":
+            rep.proven("R16.2", cons2, loc=loc(fq))
         else:
-            pat, it, conds = t[4][0]
-            problems = []
-            if not latent_source(it, D):
-                problems.append("candidates are not drawn from iter_latents(graph)")
-            P = ("setof", ("meth", D, "predecessors", (pat,), ()))
-            Cn = ("setof", ("meth", D, "successors", (pat,), ()))
-            got = f_and(*[sa.cond(_norm_len(c)) for c in conds])
-            want = f_and(sa.cond(("truth", P)), sa.cond(("truth", Cn)))
-            eq, row, _ = compare(got, want)
-            if not eq:
-                problems.append("a middle latent is a latent with at least one parent and at least one child (whatever its parents are); the guard is "
-                                + short(show_formula(got), 200))
-            y = t[3][1][0] if t[3][0] == "listlit" else None
-            if not (y and y[0] == "tuplelit" and y[1][0] == pat and sa.canon_top(y[1][1]) == sa.canon_top(P) and sa.canon_top(y[1][2]) == sa.canon_top(Cn)):
-                problems.append("must yield (latent, its parents, its children)")
-            (rep.refuted if problems else rep.proven)("R16.4", cons, "; ".join(problems), loc(f), sample={"guard": show_formula(got)})
+            rep.refuted("R16.2", cons2, ob.detail, loc(fq))
+    # the redundancy rule lives in a private generator: found as the routine remove_redundant_latents draws its nodes from
+    fr = model.func(f"{SL}.remove_redundant_latents")
+    helpers = [h for h in private_callees(model, fr, PUB) if model.func(h).is_generator]
+    cons_r = construct(fr, "guard:redundant")
+    if len(helpers) == 1:
+        _, v, dt, smp = compare_with_reference(model, helpers[0], "yvref.c16.redundant", T, mk(model, PUB), sa, post=nxden.post)
+        words = ("a latent is redundant iff its children are a proper subset of another latent's, or equal with a deterministic tie-break "
+                 "(otherwise two latents with equal children remove each other)")
+        if v == "PROVEN":
+            rep.proven("R16.4", cons_r, loc=loc(model.func(helpers[0])), sample=smp)
+        elif v == "REFUTED":
+            rep.refuted("R16.4", cons_r, f"deviates from the definition ({words}): {short(dt, 800)}", loc(model.func(helpers[0])), sample=smp)
+        else:
+            rep.unknown("R16.4", cons_r, dt, loc(model.func(helpers[0])))
     else:
-        rep.unknown("R16.4", cons, f"{len(rets)} paths", loc(f))
-    # redundant latents
-    f, ev, D, rets = gen_of("_iter_redundant_latents")
-    cons = construct(f, "guard:redundant")
-    if len(rets) == 1:
-        t = rets[0].value
-        while t[0] == "call" and t[1] == "iter":
-            t = t[2][0]
-        pieces = []
-        while t[0] == "accum":
-            pieces.append((t[3], t[4]))
-            t = t[2]
-        problems = []
-        total = False
-        L = Lc = Rr = Rc = None
-        for payload, gens in pieces:
-            (pat, it, conds), = gens
-            try:
-                (L, Lc), (Rr, Rc) = pat[1][0][1], pat[1][1][1]
-            except Exception:  # noqa: BLE001
-                problems.append("pairs of (latent, children) not recognised")
-                continue
-            if payload != ("listlit", (L,)):
-                problems.append("the rule must yield the left latent of the pair")
-            def as_sets(cnd, Lc=Lc, Rc=Rc):
-                return mapterm(cnd, lambda s: ("psubset", s[1], s[2]) if s[0] == "lt" and {s[1], s[2]} == {Lc, Rc} else (
-                    ("subset", s[1], s[2]) if s[0] == "le" and {s[1], s[2]} == {Lc, Rc} else None))
-            total = f_or(total, f_and(*[sa.cond(as_sets(c)) for c in conds]))
-            dc = [s for s in subterms(it) if s[0] == "comp" and s[1] == "dict"]
-            if not (dc and len(dc[0][3]) == 1 and dc[0][3][0][1][0] == "call" and dc[0][3][0][1][1] == f"{SL}.iter_latents" and dc[0][2][1] == dc[0][3][0][0]):
-                problems.append("pairs are not drawn from a map keyed by iter_latents(graph)")
-            elif not (dc[0][2][2][0] in ("setof",) and dc[0][2][2][1][0] == "meth" and dc[0][2][2][1][2] == "successors" and dc[0][2][2][1][3] == (dc[0][3][0][0],)):
-                problems.append("the map does not send a latent to its set of children")
-        if L is not None:
-            eqc = sa.cond(("eq", Lc, Rc))
-            ps = f_and(sa.cond(("subset", Lc, Rc)), f_not(eqc))
-            total = _expand_psubset(total, sa)
-            gt = sa.cond(("lt", Rr, L))
-            want = f_or(f_and(eqc, gt), ps)
-            eq, row, _ = compare(total, want)
-            if not eq:
-                problems.append("a latent is redundant iff its children are a proper subset of another latent's, or equal with a deterministic tie-break "
-                                "(otherwise two latents with equal children remove each other): guard is " + short(show_formula(total), 200))
-        (rep.refuted if problems else rep.proven)("R16.4", cons, "; ".join(sorted(set(problems))), loc(f))
-    else:
-        rep.unknown("R16.4", cons, f"{len(rets)} paths", loc(f))
+        rep.unknown("R16.4", cons_r, "the generator of redundant latents is not a single private helper of remove_redundant_latents", loc(fr))
     # removals: every removed set ⊆ iter_latents
     for fn in ("remove_widow_latents", "remove_unidirectional_latents", "remove_redundant_latents"):
         f = model.func(f"{SL}.{fn}")
@@ -306,55 +156,6 @@ def run(model: Model, rep: Report, tier: str) -> None:
         if n_rm == 0:
             problems.append("no removal found")
         (rep.refuted if problems else rep.proven)("R16.3", cons, "; ".join(problems), loc(f))
-    # transformation of middle latents
-    f = model.func(f"{SL}.transform_latents_with_parents")
-    ev = Evaluator(model, primitives={f"{SL}.iter_latents"})
-    D = typed(ev, "graph", "nx.DiGraph")
-    rets = return_paths(ev.run(f, {"graph": D, "tag": const("hidden")}))
-    cons = construct(f, "middle-transformation")
-    problems = []
-    seen = set()
-    for r in rets:
-        base, effs = _effects(r.value)
-        for e, gens in effs:
-            if e[0] != "call" or not gens:
-                continue
-            node = gens[0][0]
-            src_ok = gens[0][1][0] == "call" and gens[0][1][1] == f"{SL}.iter_latents"
-            P = ("setof", ("meth", D, "predecessors", (node,), ()))
-            Cn = ("setof", ("meth", D, "successors", (node,), ()))
-            if e[1] == "remove_node":
-                if e[2][0] != node or not src_ok:
-                    problems.append("removes something other than the middle latent")
-                seen.add("remove")
-            elif e[1] == "add_edges_from":
-                a = e[2][0]
-                if a[0] == "call" and a[1].endswith("product") and sa.canon_top(a[2][0]) == sa.canon_top(P) and sa.canon_top(a[2][1]) == sa.canon_top(Cn):
-                    seen.add("parents×children")
-                else:
-                    problems.append("edges added are not parents × children of the latent: " + short(show(a), 120))
-            elif e[1] == "add_node":
-                kw = dict(e[3])
-                if any(v == const(True) for _, v in e[3]) or kw:
-                    seen.add("new-latent")
-            elif e[1] == "add_edge":
-                if len(gens) == 2 and sa.canon_top(("setof", gens[1][1])) == sa.canon_top(Cn) and e[2][1] == gens[1][0]:
-                    seen.add("new-latent->children")
-                else:
-                    problems.append("the exogenous copy does not point to exactly the children of the latent")
-    for need in ("remove", "parents×children", "new-latent", "new-latent->children"):
-        if need not in seen:
-            problems.append(f"missing step: {need}")
-    (rep.refuted if problems else rep.proven)("R16.4", cons, "; ".join(sorted(set(problems))), loc(f))
-    # rule order
-    f = model.func(f"{SL}.simplify_latent_dag")
-    order = [n.func.id for n in ast.walk(f.node) if isinstance(n, ast.Call) and isinstance(n.func, ast.Name) and n.func.id in (
-        "transform_latents_with_parents", "remove_widow_latents", "remove_unidirectional_latents", "remove_redundant_latents")]
-    calls = sorted([(n.lineno, n.func.id) for n in ast.walk(f.node) if isinstance(n, ast.Call) and isinstance(n.func, ast.Name) and n.func.id in (
-        "transform_latents_with_parents", "remove_widow_latents", "remove_unidirectional_latents", "remove_redundant_latents")])
-    want = ["transform_latents_with_parents", "remove_widow_latents", "remove_unidirectional_latents", "remove_redundant_latents"]
-    got = [c for _, c in calls]
-    (rep.proven if got == want else rep.refuted)("R16.4", construct(f, "rule-order"), "" if got == want else f"rules run as {got}, published order is {want}", loc(f))
     # ------------------------------------------------------------------ R16.5
     f = model.func(f"{SL}.evans_simplify")
     eff = Effects(model)
